@@ -10,6 +10,7 @@ import Flowjaxv.Proofs.BnafGen
 import Flowjaxv.Proofs.TriangularGen
 import Flowjaxv.Proofs.PermGen
 import Flowjaxv.Proofs.NetGen
+import Flowjaxv.Proofs.TriSplineMass
 /-!
 # C01 — every bijection is invertible: inverse undoes transform, both ways
 
@@ -1047,5 +1048,52 @@ theorem gen_bnaf_inverse_of_exact_audit_instance :
   exact gen_bnaf_inverse_of_exact _ _ hact NetLawful.bnafExample_ok _ _ none rfl [1, -4] _ rfl hy rfl hy
 
 end Audit
+/-! ## `triangular_spline_flow.make_layer` / `get_splines`, REGENERATED (`Gen/Flows.lean`, translator `py2flows.FTr`; g25) -/
+section TriSplineGen
+open Flows FlowsPf
+
+/-- **`gen_tri_spline_make_layer_eq`** — the closure `triangular_spline_flow.make_layer` regenerated from `flowjax/flows.py` on every
+run (`jr.split(key, 3)`, `init(lt_key, (dim, dim))`, `.at[jnp.diag_indices(dim)].set(1)`, `TriangularAffine(jnp.zeros(dim), ·)`,
+`eqx.tree_at(lambda t: t.triangular, ·, replace_fn=WeightNormalization)`, the list `[LeakyTanh, get_splines(), Invert(LeakyTanh),
+tri_aff]`, the conditional `append` of `AdditiveCondition(Linear(…, use_bias=False, key=cond_key), …)`, `Chain`,
+`_add_default_permute(·, dim, perm_key)`; nested `get_splines`: `partial(RationalQuadraticSpline, knots=knots, interval=1)`,
+`filter_vmap(fn, axis_size=dim)()`, `Vmap(·, in_axes=eqx.if_array(0))`) IS the hand model `Flows.triSplineCore` at the layer as
+constructed (`Flows.triSplineInitNet`), composed with the generated `_add_default_permute`: every `dim`, key, `tanh_max_val`, `knots`,
+conditional or not. -/
+theorem gen_tri_spline_make_layer_eq (dim : ℕ) (m : ℝ) (knots : ℕ) (cond_dim : Option ℕ) (key : TriSplineKey ℝ) :
+    triangular_spline_flow.make_layer dim m knots cond_dim key =
+      add_default_permute (triSplineCore (triSplineInitNet dim knots cond_dim key) dim m) dim key.2.1 :=
+  FlowsPf.gen_tri_spline_make_layer_eq dim m knots cond_dim key
+
+/-- the generated factory body over the generated closure is the factory body of `tri_spline_flow_lawful` at the constructed keys -/
+theorem gen_tri_spline_flow_eq (dim : ℕ) (m : ℝ) (knots : ℕ) (cond_dim : Option ℕ) (key : ℕ → TriSplineKey ℝ) (n : ℕ) (invert : Bool) :
+    genTriSplineFlowBij dim m knots cond_dim key n invert =
+      triSplineFlowBij dim m (genTriSplineKey dim knots cond_dim key) n invert :=
+  FlowsPf.genTriSplineFlowBij_eq dim m knots cond_dim key n invert
+
+/-- the layer the generated closure constructs satisfies the hypothesis `TriSplineOK` of `tri_spline_flow_lawful`: any
+`tanh_max_val > 0`, `knots ≥ 1`, ANY `dim × dim` matrix drawn by `init` (the unit diagonal written by `.set(1)` is accepted by the
+SoftPlus reparameterisation; weight normalisation keeps the matrix triangular with non-zero diagonal), any condition matrix with
+`dim` rows or none -/
+theorem gen_tri_spline_layer_ok (dim : ℕ) {m : ℝ} (hm : 0 < m) {knots : ℕ} (hk : 1 ≤ knots) (cond_dim : Option ℕ)
+    (key : TriSplineKey ℝ) (hsq : TriPf.Square dim key.1) (hc : cond_dim.isSome → key.2.2.length = dim) :
+    TriSplineOK dim m (triSplineInitNet dim knots cond_dim key) :=
+  FlowsPf.triSplineInitNet_ok dim hm hk cond_dim key hsq hc
+
+/-- **`gen_tri_spline_flow_lawful`** — `tri_spline_flow_lawful` about the REGENERATED closure: the flow
+`Invert(Scan(filter_vmap(make_layer)(split(key, n)))) if invert else Scan(…)` with the generated `make_layer` is a lawful bijection
+of `ℝ^dim` at every condition — every `n`, `dim`, `knots ≥ 1`, `tanh_max_val > 0`, conditional or not, every per-layer key
+(`GenTriSplineKeysOK`: `dim × dim` weights, `dim`-row condition matrices, permutations). -/
+theorem gen_tri_spline_flow_lawful {dim : ℕ} {m : ℝ} {knots : ℕ} {cond_dim : Option ℕ} {key : ℕ → TriSplineKey ℝ} {n : ℕ}
+    (h : GenTriSplineKeysOK dim m knots cond_dim key n) (invert : Bool) :
+    (genTriSplineFlowBij dim m knots cond_dim key n invert).Lawful (Vec dim) (Vec dim) :=
+  FlowsPf.gen_tri_spline_flow_lawful h invert
+
+/-- non-vacuity: a 2-layer conditional generated flow on `ℝ³` (`FlowsPf.genTriKeys`: `knots = 4`, `tanh_max_val = 3`, `cond_dim = 2`) -/
+theorem gen_tri_spline_flow_instance (invert : Bool) :
+    (genTriSplineFlowBij 3 3 4 (some 2) genTriKeys 2 invert).Lawful (Vec 3) (Vec 3) :=
+  gen_tri_spline_flow_lawful genTriKeys_ok invert
+
+end TriSplineGen
 
 end C01
